@@ -13,7 +13,7 @@ const { SimFs } = require('./simfs')
 const smap = require('./smap')
 
 // two pairs share a base name in different directories
-const FILES = ['/sim/app/a.js', '/sim/app/lib/b.js', '/sim/other/a.js', '/sim/c.js', '/sim/app/lib/deep/b.js', '/sim/other/e.js']
+const FILES = ['/sim/app/a.js', '/sim/app/lib/b.js', '/sim/other/a.js', '/sim/c.js', '/sim/app/lib/deep/b.js', '/sim/other/e.js', '/sim/app/a\u00f1adir.js']
 
 function cfgOf (chain, comments) {
   return {
@@ -43,7 +43,7 @@ function plan (seed, run, tier) {
     for (let vi = 0; vi < nVer; vi++) {
       const kind = ['mod', 'mod', 'mod', 'mod', 'plain', 'plain', 'syntaxerr'][rng.below(7)]
       const omap = chain && rng.chance(2, 3) ? rng.pick(['inline', 'external']) : null
-      versions.push(genVersion(rng, fi, vi, kind, { file, omap, allowMsgAt }))
+      versions.push(genVersion(rng, fi, vi, kind, { file, omap, allowMsgAt, lookalikeLine: rng.chance(1, 5) }))
     }
     files.push({ path: file, versions })
   }
@@ -208,7 +208,7 @@ function execute (plan, table) {
     return { fi: +m[1], vi: +m[2], k: +m[3], caller: m[4] === 'c' }
   }
 
-  function checkFrames (op, via, result, siteKindOfThrow, lineOverride) {
+  function checkFrames (op, via, result, siteKindOfThrow, lineOverride, expectedHead) {
     // per-frame expectations from the reference model
     const raw = lastRaw || []
     const isString = typeof result === 'string'
@@ -291,6 +291,10 @@ function execute (plan, table) {
         }
       }
     })
+    if (isString && !result.startsWith('HANDLER-THREW') && firstAt > 0) {
+      const head = outLines.slice(0, firstAt).join('\n')
+      if (expectedHead != null && head !== expectedHead) viol('P4', msgAt ? 'string-path:message-line-starts-with-at' : 'P4:string-path-message-altered', `[op #${seq}] the message part of the stack was altered: ${JSON.stringify(head).slice(0, 200)} instead of ${JSON.stringify(expectedHead).slice(0, 200)}`)
+    }
     if (isString) {
       // same number of lines as V8's own formatting: message lines + one per frame
       if (result.startsWith('HANDLER-THREW')) return
@@ -396,7 +400,7 @@ function execute (plan, table) {
           const cf = plan.files[op.cbf]; const cld = cf && loaded[cf.path]
           if (cld) {
             const cver = cf.versions[cld.v]
-            const cs = cver.sites.filter(s => !['callback', 'throw', 'method', 'helper', 'double', 'evalfn'].includes(s.kind))
+            const cs = cver.sites.filter(s => !['callback', 'throw', 'method', 'helper', 'double', 'evalfn', 'msg-loc'].includes(s.kind))
             if (cs.length) { const c = cs[op.cbsite % cs.length]; cb = cld.exports[c.fn]; cbKind = c.kind; if (cf.path !== f.path) st('probe:cross-file-stack') }
           }
           if (typeof cb !== 'function') cb = function plainCallback () { return new Error('cb') }
@@ -405,6 +409,16 @@ function execute (plan, table) {
         // via 'keep': whatever handler is installed stays (the same wrapper function keeps formatting)
         let err
         try { err = fn('arg', cb) } catch (e) { err = e }
+        if (site.kind === 'msg-loc' && err && typeof err === 'object') {
+          // learn this frame's raw location from the first call, then make the message contain it
+          lastRaw = null
+          try { void err.stack } catch (e) {}
+          const top = lastRaw && lastRaw.find(r => r.fn === site.fn)
+          if (top) {
+            try { err = fn('arg', cb, `deprecated call at ${top.file}:${top.line}:${top.col} (see docs)`) } catch (e) { err = e }
+            st('probe:message-contains-own-frame-location')
+          }
+        }
         if (site.kind === 'evalfn' && typeof err === 'function') { try { err = err() } catch (e) { err = e }; st('probe:eval-made-function-called-from-outside') }
         const errs = Array.isArray(err) ? [{ e: err[0], line: site.line }, { e: err[1], line: site.line2 }] : [{ e: err, line: null }]
         for (const item of errs) {
@@ -413,7 +427,10 @@ function execute (plan, table) {
           try { result = item.e && item.e.stack } catch (e) { viol('N1', 'N1:stack-access-threw', `[op #${seq}] reading error.stack threw: ${e && e.message}`) }
           if (handlerThrew) viol('N1', 'N1:prepareStackTrace-threw', `[op #${seq} via=${op.via}] the package's prepareStackTrace threw: ${handlerThrew && handlerThrew.message}`)
           if (lastRaw) {
-            checkFrames(op, op.via, result, site.kind === 'callback' ? cbKind : site.kind, item.line ? { fn: site.fn, line: item.line } : null)
+            let head = null
+            try { head = item.e && typeof item.e.message === 'string' && item.e.name ? `${item.e.name}: ${item.e.message}` : null } catch (e) {}
+            if (head != null && item.e.message === '') head = item.e.name
+            checkFrames(op, op.via, result, site.kind === 'callback' ? cbKind : site.kind, item.line ? { fn: site.fn, line: item.line } : null, head)
             st('throws-checked')
             st('frames-checked', lastRaw.length)
             st(typeof result === 'string' ? 'probe:string-path' : 'probe:structured-path')
@@ -548,5 +565,5 @@ module.exports = {
     'frames of code that is older than the latest rewrite of its file carry no positional expectation (the package keys by file name)',
     'batching the rewriter is sound here because call-to-call state of the rewriter is C16\'s subject'
   ],
-  expectedProbes: ['probe:frame-in-unmapped-region-of-chained-map', 'probe:frame-in-rewritten-file', 'probe:frame-through-chained-map', 'probe:file-rewritten-again', 'probe:throw-from-stale-code', 'probe:notmodified-after-modified', 'probe:rewrite-by-second-rewriter-instance', 'probe:eval-frame', 'probe:frame-in-never-rewritten-file', 'probe:lru-eviction-burst', 'probe:cross-file-stack', 'probe:string-path', 'probe:structured-path', 'probe:lookup-translated', 'probe:two-stacks-from-one-expression', 'probe:frame-in-second-source-of-bundle-map', 'probe:eval-made-function-called-from-outside', 'probe:more-than-1000-files-rewritten']
+  expectedProbes: ['probe:frame-in-unmapped-region-of-chained-map', 'probe:frame-in-rewritten-file', 'probe:frame-through-chained-map', 'probe:file-rewritten-again', 'probe:throw-from-stale-code', 'probe:notmodified-after-modified', 'probe:rewrite-by-second-rewriter-instance', 'probe:eval-frame', 'probe:frame-in-never-rewritten-file', 'probe:lru-eviction-burst', 'probe:cross-file-stack', 'probe:string-path', 'probe:structured-path', 'probe:lookup-translated', 'probe:two-stacks-from-one-expression', 'probe:frame-in-second-source-of-bundle-map', 'probe:eval-made-function-called-from-outside', 'probe:more-than-1000-files-rewritten', 'probe:message-contains-own-frame-location']
 }
